@@ -49,7 +49,16 @@ def cases(rng, tier):
                     out.append(G.line("bvs", fmt, "B.o", [rng.randint(0, 2)], x + y + [Fr(1, 2)]))
         for _ in range(N):
             r = rng.random()
-            if r < 0.45:
+            if r < 0.1:
+                # guard lattice on exact operands: both vacuous / both dogmatic / one of each, different base rates
+                def lat(kind):
+                    a = Fr(rng.randint(0, 8), 8)
+                    if kind == "vac":
+                        return [Fr(0), Fr(0), Fr(1), a]
+                    b = Fr(rng.randint(0, 8), 8)
+                    return [b, 1 - b, Fr(0), a]
+                x, y = lat(rng.choice(["vac", "vac", "dog"])), lat(rng.choice(["vac", "vac", "dog"]))
+            elif r < 0.45:
                 x, y = rng.choice(grid), rng.choice(grid)
             elif r < 0.65:
                 den = rng.choice([16, 32, 64])
